@@ -40,6 +40,37 @@ func (d *memDB) Set(k, v []byte) {
 	d.m[string(k)] = c
 }
 
+// pendingPath holds the input of the case being run (see cmd/c10): reported when the process dies.
+var pendingPath string
+
+func pending(v interface{}) {
+	if pendingPath == "" {
+		return
+	}
+	b, _ := json.Marshal(v)
+	_ = os.WriteFile(pendingPath, b, 0o644)
+}
+
+func deepCopy(bs [][]byte) [][]byte {
+	r := make([][]byte, len(bs))
+	for i, b := range bs {
+		r[i] = append([]byte{}, b...)
+	}
+	return r
+}
+
+func sameHashes(a, b [][]byte) bool {
+	if len(a) != len(b) {
+		return false
+	}
+	for i := range a {
+		if hex.EncodeToString(a[i]) != hex.EncodeToString(b[i]) {
+			return false
+		}
+	}
+	return true
+}
+
 func leaf(seed, i int) []byte  { return []byte{byte(seed), byte(i / 256), byte(i % 256)} }
 func other(seed, j int) []byte { return []byte{0xEE, byte(seed), byte(j / 256), byte(j % 256)} }
 func leafHash(v []byte) []byte { return crypto.Hash(append([]byte{0}, v...)) }
@@ -72,6 +103,8 @@ type appRec struct {
 	RL    *st    `json:"rl"` // reloaded from storage; nil = error
 	Batch string `json:"batch"`
 	Panic string `json:"panic,omitempty"`
+	// PredMut: CalculateRootFromAppendPath called with the LIVE tree.AppendPath() changed the tree (append path / root / size)
+	PredMut bool `json:"predmut,omitempty"`
 }
 
 type tamper struct {
@@ -171,6 +204,7 @@ func appendRun(o *hx.Out, seed int, sizes []int) {
 	t := rmt.NewRegularMerkleTree(db)
 	vals := [][]byte{}
 	for n := 0; n <= max; n++ {
+		pending(map[string]interface{}{"k": "app", "seed": seed, "n": n})
 		var pk int
 		var pst st
 		if n > 0 {
@@ -186,6 +220,14 @@ func appendRun(o *hx.Out, seed int, sizes []int) {
 			default:
 				pk = 1
 				pst = st{R: hx32(pred.Root), P: hxs(pred.AppendPath), S: pred.Size}
+			}
+			// the prediction is a pure function: calling it with the live append path must not change the tree
+			beforePath, beforeRoot, beforeSize := deepCopy(t.AppendPath()), append([]byte{}, t.Root()...), t.Size()
+			_ = try(func() { rmt.CalculateRootFromAppendPath(v, t.AppendPath(), t.Size()) })
+			if !sameHashes(beforePath, t.AppendPath()) || hx32(beforeRoot) != hx32(t.Root()) || beforeSize != t.Size() {
+				o.Put(appRec{K: "app", Seed: seed, N: n - 1, St: stOf(t), PK: 3, Pst: st{P: []string{}}, Batch: "", PredMut: true,
+					Panic: "predmut:CalculateRootFromAppendPath changed its caller's append path"})
+				return
 			}
 			if err := t.Append(v); err != nil {
 				o.Put(appRec{K: "app", Seed: seed, N: n, St: stOf(t), PK: 3, Pst: st{P: []string{}}, Batch: "", Panic: "Append:" + err.Error()})
@@ -223,6 +265,7 @@ func proofCase(seed, n int, ups [][2]int, qs []int, withTampers bool, r *hx.Rng)
 	if rec.Ups == nil {
 		rec.Ups = [][2]int{}
 	}
+	pending(rec)
 	defer func() {
 		if p := recover(); p != nil {
 			rec.Panic = "setup:" + fmt.Sprint(p)
@@ -338,6 +381,7 @@ func applyUps(t *rmt.RegularMerkleTree, seed, n int, vals [][]byte, ups [][2]int
 
 func updCase(seed, n int, ups [][2]int) (rec updRec) {
 	rec = updRec{K: "upd", Seed: seed, N: n, Ups: ups, Path: []string{}}
+	pending(rec)
 	defer func() {
 		if p := recover(); p != nil {
 			rec.Panic = "setup:" + fmt.Sprint(p)
@@ -389,6 +433,7 @@ func rwCases(o *hx.Out, seed, n int, idxs []int) {
 	full, _, vals := build(seed, n, nil)
 	for _, idx := range idxs {
 		rec := rwRec{K: "rw", Seed: seed, N: n, Idx: idx}
+		pending(rec)
 		var w [][]byte
 		var err error
 		if p := try(func() { w, err = full.GenerateRightWitness(uint64(idx)) }); p != "" {
@@ -518,6 +563,8 @@ func main() {
 	r := hx.NewRng(hx.SeedFromEnv())
 	o := hx.NewOut(*out)
 	defer o.Close()
+	pendingPath = *out + ".pending"
+	defer os.Remove(pendingPath)
 	if *in != "" {
 		replay(o, *in, r)
 		return
